@@ -648,6 +648,23 @@ Section Altair.
       assert (A2 : length (map (fun p => add64 (fst p) (snd p)) (combine (map (fun p => add64 (fst p) (snd p)) (combine (map (fun p => add64 (fst p) (snd p)) (combine (repeat 0 (nvals st)) x0)) x1)) x2)) = nvals st)
         by (rewrite add_lists64_length; congruence).
       rewrite add_lists64_length; congruence. }
+    assert (Hsum4n : forall x0 x1 x2 x3 j, length x0 = nvals st -> length x1 = nvals st -> length x2 = nvals st -> length x3 = nvals st ->
+              (j < nvals st)%nat ->
+              nth j (map (fun p => add64 (fst p) (snd p)) (combine (map (fun p => add64 (fst p) (snd p)) (combine (map (fun p => add64 (fst p) (snd p))
+                (combine (map (fun p => add64 (fst p) (snd p)) (combine (repeat 0 (nvals st)) x0)) x1)) x2)) x3)) 0 =
+              add64 (add64 (add64 (add64 0 (nth j x0 0)) (nth j x1 0)) (nth j x2 0)) (nth j x3 0)).
+    { intros x0 x1 x2 x3 j L0 L1 L2 L3 Hj.
+      assert (A0 : length (map (fun p => add64 (fst p) (snd p)) (combine (repeat 0 (nvals st)) x0)) = nvals st)
+        by (rewrite add_lists64_length; rewrite repeat_length; congruence).
+      assert (A1 : length (map (fun p => add64 (fst p) (snd p)) (combine (map (fun p => add64 (fst p) (snd p)) (combine (repeat 0 (nvals st)) x0)) x1)) = nvals st)
+        by (rewrite add_lists64_length; congruence).
+      assert (A2 : length (map (fun p => add64 (fst p) (snd p)) (combine (map (fun p => add64 (fst p) (snd p)) (combine (map (fun p => add64 (fst p) (snd p)) (combine (repeat 0 (nvals st)) x0)) x1)) x2)) = nvals st)
+        by (rewrite add_lists64_length; congruence).
+      rewrite add_lists64_nth by (try congruence; rewrite A2; exact Hj).
+      rewrite add_lists64_nth by (try congruence; rewrite A1; exact Hj).
+      rewrite add_lists64_nth by (try congruence; rewrite A0; exact Hj).
+      rewrite add_lists64_nth by (rewrite repeat_length; try congruence; exact Hj).
+      rewrite nth_repeat0. reflexivity. }
     assert (LR : length R = nvals st) by (apply Hsum4; assumption).
     assert (LP : length P = nvals st) by (apply Hsum4; assumption).
     unfold apply_deltas_go. cbn [d_rewards d_penalties]. rewrite LR, LP, Hn, Nat.eqb_refl. cbn [negb orb].
@@ -678,8 +695,7 @@ Section Altair.
         { clear. intros Bl. revert j. induction Bl as [|b Bl IH]; intros j [|r Rl] [|p Pl] Hr Hp Hj; cbn [length] in *; try lia.
           destruct j as [|j]; [reflexivity|]. cbn [combine map nth]. apply IH; lia. }
         rewrite Hgo by lia. unfold R, P.
-        rewrite !add_lists64_nth; rewrite ?add_lists64_length, ?repeat_length; try lia.
-        rewrite !nth_repeat0.
+        rewrite !Hsum4n by (try assumption; lia).
         set (b := nth j (balances st) 0) in *. set (a0 := nth j r0 0) in *. set (a1 := nth j r1 0) in *. set (a2 := nth j r2 0) in *.
         set (a3 := nth j r3 0) in *. set (q0 := nth j p0 0) in *. set (q1 := nth j p1 0) in *. set (q2 := nth j p2 0) in *. set (q3 := nth j p3 0) in *.
         repeat match goal with H : (_ <=? _) = true |- _ => apply N.leb_le in H end.
@@ -690,6 +706,6 @@ Section Altair.
         rewrite (add64_id (0 + q0 + q1 + q2) q3) by lia.
         rewrite (add64_id b) by lia. cbv zeta.
         destruct (N.leb_spec (0 + q0 + q1 + q2 + q3) (b + (0 + a0 + a1 + a2 + a3))); lia. }
-    rewrite Hbals. reflexivity.
+    exact (f_equal (fun x => st <| balances := x |>) Hbals).
   Qed.
 End Altair.
